@@ -88,6 +88,19 @@ class Prop(PropBase):
         out = {"dm": X.rat(X.frac(dmv)), "dtop": X.rat(X.frac(dtop)), "dbot": X.rat(X.frac(dbot)),
                "ref_hz": "inf" if case["ref"] == "inf" else X.rat(X.q_value(r, u.Hz)),
                "labels": [X.rat(X.q_value(f, u.Hz)) for f in z.channel_freqs]}
+        rej = []
+        inten = z.to_intensity()
+        for lab, fn in (("coherent_dedispersion(IntensitySignal)", lambda: pb.coherent_dedispersion(inten, DM)),
+                        ("coherent_dedispersion(ndarray)", lambda: pb.coherent_dedispersion(np.asarray(z.data), DM)),
+                        ("coherent_dedispersion(Signal)", lambda: pb.coherent_dedispersion(pb.Signal(np.asarray(z.data), sample_rate=z.sample_rate), DM))):
+            try:
+                fn()
+                rej.append(lab + " accepted")
+            except TypeError:
+                pass
+            except Exception as e:      # noqa
+                rej.append(f"{lab}: {err_name(e)} instead of TypeError")
+        out["rejects"] = rej
         try:
             kw = {} if ref is None else {"ref_freq": ref}
             chirp = DM.chirp_from_signal(z, **kw)
@@ -231,6 +244,7 @@ class Prop(PropBase):
     # --------------------------------------------------------------- property oracle
     def spec_violation(self, case, code):
         np = self.np
+        # (argument checks that the property does not state are observed in `rejects` for the evidence, not judged)
         if "err" in code:
             return f"raised {code['err']}"
         N = case["N"]
